@@ -190,6 +190,29 @@ TABLE.update({
 PENDING_REASON = "check not built yet in this session (planned in DESIGN.md section 4); not claimed until it runs"
 
 
+
+# dimensions added after the table was first written (fourth seeding round); appended to the level text
+EXTRA_TEXT = {
+    'C01': " Also read in compressed physical encodings (inherited indexes, metadata-less segments after header-only segments).",
+    'C03': " A differential job (no content model) covers files in which a non-final segment ends in an incomplete chunk.",
+    'C04': " Integer indices are followed by windows and slices around the element just read.",
+    'C05': " Results are also compared in representation (container, dtype, shape) with a freshly opened file, and arrays returned earlier must not change.",
+    'C07': " Programs are also read lazily (both channel orders, one window per write); long arrays at power-of-two lengths, 100-140-segment programs, overwritten files and re-entered writers are generated.",
+    'C08': " Long arrays at power-of-two lengths, overwritten files and re-entered writers are generated.",
+    'C09': " Short non-final segments and re-entered writers are generated.",
+    'C10': " Long sources (16-768 KiB channels) and reading the copy by path with its own index are included.",
+    'C11': " Re-declaring segments without a new object list and lock-step chunk streams are included.",
+    'C12': " datetime64 values of the whole representable range go through a file as data and as properties.",
+    'C13': " Arrays returned earlier must not be changed by later reads.",
+    'C14': " Slices and windows are judged again after integer indices and must be arrays.",
+    'C15': " A truncation differential compares cut big-endian / mixed files with the cut little-endian file.",
+    'C16': " Channels re-written in the opposite order are read lazily from every offset.",
+    'C17': " Sensor scales fed by other scales (input source 0 / 1) are included.",
+    'C18': " Thermocouple scales fed by other scales and arrays mixing valid with NaN / inf / out-of-range samples are included.",
+    'C20': " Unbuffered caller streams and the index file given as the path are included.",
+}
+
+
 def main():
     ids = [json.loads(line)['id'] for line in open(os.path.join(HERE, 'properties.jsonl'))]
     checks = []
@@ -206,7 +229,7 @@ def main():
                 'evidence_file': 'evidence/%s.json' % pid,
                 'replay_cmd_template': './check %s --replay {path}' % pid,
                 'engine': 'vf',
-                'level_claimed': {'category': level, 'text': t['text'], 'design_ref': 'DESIGN.md section 4 (%s)' % pid},
+                'level_claimed': {'category': level, 'text': t['text'] + EXTRA_TEXT.get(pid, ''), 'design_ref': 'DESIGN.md section 4 (%s)' % pid},
                 'level_note': t['note'],
                 'technique': t['technique'],
             })
